@@ -31,7 +31,15 @@ SHAPES = {
     'm2m': ('m2m', False, False),
     'mix_req_nocasc': ('mix', True, False),
     'mix_opt': ('mix', False, False),
+    # one-to-one with cascade_delete declared on the column-holding side: deleting B deletes its A, deleting A only
+    # clears B's reference (4th element: ChildCasc)
+    'o2o_opt_childcasc': ('o2o', False, False, True),
 }
+
+
+def shape_of(shape):
+    t = SHAPES[shape]
+    return t if len(t) == 4 else t + (False,)
 
 # which category of disagreement belongs to which property
 CATEGORIES = {
@@ -43,7 +51,7 @@ STRATEGIES = ['default', 'lazy', 'prefetch', 'nplus1_0', 'nplus1_none']
 
 
 def cfg_for(shape, max_level, aids=(1, 2), bids=(1, 2), vals=(1, 2), props=True, init='InitSeeded', reads=True):
-    rel, breq, casc = SHAPES[shape]
+    rel, breq, casc, childcasc = shape_of(shape)
     lines = ['INIT %s' % init, 'NEXT Next',
              'CONSTANTS',
              ' AIds = {%s}' % ','.join(map(str, aids)),
@@ -52,6 +60,7 @@ def cfg_for(shape, max_level, aids=(1, 2), bids=(1, 2), vals=(1, 2), props=True,
              ' Rel = "%s"' % rel,
              ' BReq = %s' % ('TRUE' if breq else 'FALSE'),
              ' Casc = %s' % ('TRUE' if casc else 'FALSE'),
+             ' ChildCasc = %s' % ('TRUE' if childcasc else 'FALSE'),
              ' MaxLevel = %d' % max_level,
              ' WithReads = %s' % ('TRUE' if reads else 'FALSE'),
              'CONSTRAINT Bounded', 'CHECK_DEADLOCK FALSE']
@@ -82,7 +91,7 @@ class World:
 
     def __init__(self, shape, path, strategy='default'):
         self.shape = shape
-        self.rel, self.breq, self.casc = SHAPES[shape]
+        self.rel, self.breq, self.casc, childcasc = shape_of(shape)
         self.path = path
         self.strategy = strategy
         if os.path.exists(path):
@@ -120,7 +129,8 @@ class World:
                 a = Required(A, column='a_id', reverse='bs') if breq else Optional(A, column='a_id', reverse='bs')
                 as_ = Set(A, column='a_id', reverse='ls', **setkw)
             elif rel in ('o2m', 'o2o'):
-                a = Required(A, column='a_id') if breq else Optional(A, column='a_id')
+                a = Required(A, column='a_id') if breq else Optional(A, column='a_id', cascade_delete=True) if childcasc \
+                    else Optional(A, column='a_id')
             else:
                 as_ = Set(A, column='a_id', **setkw)
 
@@ -1116,6 +1126,48 @@ class Driver:
             return
         view = self.agreed(belief, 'view')
         cur, dbv = self.agreed(belief, 'cur'), self.agreed(belief, 'db')
+        sess = self.agreed(belief, 'sess')
+        if dbv is not None and cur is not None and sess == 'stuck':
+            # a call reported a hidden conflict (HFail): it had no effect; a successful exit commits the view as it
+            # was, a failing exit commits nothing
+            try:
+                ad.do_End({})
+                out = 'ok'
+            except (core.OrmError, core.DBException, AssertionError) as exc:
+                out = family(exc)
+            if self.after_call:
+                self.after_call('End', out)
+            trace.append({'op': 'End', 'e': '-', 'k': 0, 'x': 0, 'y': 0, 'out': out, 'ret': [], 'final': True})
+            if out not in ('ok', 'Integrity', 'Internal'):
+                raise Mismatch('crash', 'End() after a call that reported a conflict: pony -> %s' % out)
+            got, problems = w.dump()
+            self.stats['commits_compared'] += 1
+            kinds.add('exit-after-failed-call')
+            want = norm_state(cur if out == 'ok' else dbv)
+            if problems or got != want:
+                raise Mismatch('failure', 'database after End(%s) of a session in which a call had reported a conflict is %r %s, '
+                                          'specification says %r' % (out, got, '; '.join(problems), want))
+            return
+        if dbv is not None and sess == 'aborted':
+            # a flush of this session has failed and the program caught the error (EndAfterFailure): whatever the
+            # exit reports, nothing of the session may reach the database (C14)
+            try:
+                ad.do_End({})
+                out = 'ok'
+            except (core.OrmError, core.DBException, AssertionError) as exc:
+                out = family(exc)
+            if self.after_call:
+                self.after_call('End', out)
+            trace.append({'op': 'End', 'e': '-', 'k': 0, 'x': 0, 'y': 0, 'out': out, 'ret': [], 'final': True})
+            if out not in ('ok', 'Integrity', 'Internal'):
+                raise Mismatch('crash', 'End() after a failed flush: pony -> %s' % out)
+            got, problems = w.dump()
+            self.stats['commits_compared'] += 1
+            kinds.add('exit-after-failed-flush')
+            if problems or got != norm_state(dbv):
+                raise Mismatch('keys', 'database after leaving a session whose flush had failed is %r %s, specification says '
+                                        'it stays %r' % (got, '; '.join(problems), norm_state(dbv)))
+            return
         if view is None or not view['quiet'] or cur is None or dbv is None:
             return
         if self.rng.random() < 0.75:
